@@ -116,6 +116,25 @@ DIRECTED = [
         {"op": "const", "d": 5, "c": Qc(1, 3, "X"), "f": "parts"}, {"op": "add", "d": 5, "a": 5, "b": 5, "f": "rr"},
         {"op": "canon", "d": 6, "a": 4}, {"op": "const", "d": 5, "c": Qc(0, 7, "X"), "f": "parts"}, {"op": "relax", "d": 6, "a": 6},
         {"op": "mul", "d": 4, "a": 4, "b": 2, "f": "vv"}, {"op": "const", "d": 1, "c": Qc(4 * W * W, 9 * W * W, "X"), "f": "parts"}]},
+    # base changes between a base and its powers (16 <-> 2, 100 <-> 10): significands divisible by the new base but not
+    # by the old one, exponents that are not multiples of the power
+    {"pool": "F", "nr": 6, "steps": [
+        {"op": "const", "d": 1, "c": F(2, -3, 16, "Zero")}, {"op": "withbase", "d": 2, "a": 1},
+        {"op": "const", "d": 3, "c": F(1, -11, 2, "Zero")}, {"op": "const", "d": 4, "c": F(0x28, 1, 16, "HalfAway")},
+        {"op": "withbase", "d": 4, "a": 4, "f": "bin"}, {"op": "const", "d": 5, "c": F(5, 7, 2, "Zero", 12)},
+        {"op": "upbase", "d": 5, "a": 5}, {"op": "withbase", "d": 6, "a": 5}, {"op": "const", "d": 1, "c": F(6, 2, 16, "Up", 9)},
+        {"op": "withbaseprec", "d": 1, "a": 1, "n": 40}, {"op": "const", "d": 2, "c": F(3, 9, 2, "Zero")}]},
+    {"pool": "F", "nr": 5, "steps": [
+        {"op": "const", "d": 1, "c": F(120, -1, 100, "HalfAway")}, {"op": "withbase", "d": 2, "a": 1, "f": "dec"},
+        {"op": "const", "d": 3, "c": F(12, -1, 10, "HalfAway")}, {"op": "const", "d": 4, "c": F(7, 3, 10, "Zero", 8)},
+        {"op": "upbase", "d": 4, "a": 4}, {"op": "withbase", "d": 5, "a": 4}, {"op": "const", "d": 1, "c": F(7000, 0, 10, "Zero")}]},
+    # rationals from floats: the denominator is a power of the base, the numerator shares factors with it
+    {"pool": "Q", "nr": 6, "steps": [
+        {"op": "fromfloat", "d": 1, "c": {"sig": I(5), "exp": -1, "base": 10}, "f": "R"}, {"op": "const", "d": 2, "c": Qc(1, 2, "R"), "f": "parts"},
+        {"op": "fromfloat", "d": 3, "c": {"sig": I(125), "exp": -2, "base": 10}, "f": "Rrepr"}, {"op": "const", "d": 4, "c": Qc(5, 4, "X"), "f": "parts"},
+        {"op": "fromfloat", "d": 5, "c": {"sig": I(-15), "exp": -2, "base": 10}, "f": "X"}, {"op": "fromfloat", "d": 6, "c": {"sig": I(12), "exp": -3, "base": 6}, "f": "R"},
+        {"op": "const", "d": 4, "c": Qc(1, 18, "R"), "f": "parts"}, {"op": "fromfloat", "d": 5, "c": {"sig": I(6), "exp": -3, "base": 16}, "f": "R"},
+        {"op": "fromfloat", "d": 6, "c": {"sig": I(3), "exp": -1, "base": 2}, "f": "Xrepr"}, {"op": "fromfloat", "d": 1, "c": {"sig": I(0), "exp": -4, "base": 10}, "f": "R"}]},
 ]
 
 
